@@ -161,6 +161,10 @@ func sortEigensystem(eigenvectors Matrix, eigenvalues Vector) {
 func eigensystem(a Matrix, inSitu *InSitu, computeEigenvectors, symmetric bool, args ...interface{}) (Vector, Matrix, error) {
   eigenvalues  := inSitu.Eigenvalues
   eigenvectors := inSitu.Eigenvectors
+  if !computeEigenvectors {
+    // a matrix left in the InSitu object is not a request
+    eigenvectors = nil
+  }
 
   n, _ := a.Dims()
 
@@ -232,6 +236,12 @@ func Run(a Matrix, args_ ...interface{}) (Vector, Matrix, error) {
     // the eigenvectors are the columns of u, let the qrAlgorithm
     // accumulate u in the (possibly caller-supplied) result matrix
     inSitu.QrAlgorithm.U = inSitu.Eigenvectors
+  } else if computeEigenvectors && inSitu.QrAlgorithm.U == inSitu.Eigenvectors {
+    // left over from a symmetric call: the eigenvectors are computed from
+    // the Schur vectors and must not share their storage
+    inSitu.QrAlgorithm.U = nil
   }
+  // a recycled InSitu object holds the matrix of the previous call
+  inSitu.QrAlgorithm.InitializeH = true
   return eigensystem(a, inSitu, computeEigenvectors, symmetric, args...)
 }
